@@ -421,6 +421,11 @@ func (sc *fScn) op(w []string) {
 func (sc *fScn) finish() {
 	for i, vs := range sc.sess {
 		if !sc.dead[i] {
+			// Session.purgeChannels (`for len(s.send) > 0 { <-s.send }`) races with the connection's own drain loop:
+			// if the loop takes the last frame between the len() and the receive, cleanUp blocks for ever.  The
+			// previous cleanUp makes the topic queue {pres off} on the remaining connections, so wait until their
+			// loops have drained everything before the next one (seen as a rare stall of the whole run).
+			vWaitQuiet(sc.topics())
 			vs.s.cleanUp(true)
 			if !sc.clogged[i] {
 				<-vs.done
